@@ -14,7 +14,9 @@ VERIF = os.path.dirname(os.path.dirname(os.path.abspath(__file__)))
 REPO = os.environ.get("VERIF_REPO", "/repo")
 COQ = os.path.join(VERIF, "coq")
 THEORIES = os.path.join(COQ, "theories")
-CACHE = os.path.join(VERIF, ".cache")
+# build output is kept per source tree: cargo's fingerprints of workspace members do not include the workspace path, so two
+# trees sharing one target directory would hand each other stale binaries
+CACHE = os.path.join(VERIF, ".cache" if REPO == "/repo" else ".cache-" + hashlib.md5(REPO.encode()).hexdigest()[:8])
 CORR = os.path.join(THEORIES, "Corr")
 EVIDENCE = os.path.join(VERIF, "evidence")
 REPLAYS = os.path.join(VERIF, "replays")
